@@ -72,7 +72,14 @@ def case(cid, rng, cfg):
     rel = cfg["atype"] == "relative"
     grid = REL_ALPHAS if rel else ABS_ALPHAS
     sel = sorted(rng.choice(len(grid), size=4, replace=False))
-    alphas = [grid[i] for i in sel]
+    r_ = rng.random()
+    if r_ < 0.3:
+        sel = sel[::-1]                               # descending grid
+    elif r_ < 0.55:
+        sel = list(rng.permutation(sel))              # unordered grid
+    elif r_ < 0.7:
+        sel = sel + [sel[int(rng.integers(len(sel)))]]        # a repeated value
+    alphas = [grid[int(i)] for i in sel]
     scoring = {"mse": None if rng.random() < 0.5 else "neg_mean_squared_error", "rmse": "neg_root_mean_squared_error", "r2": "r2"}[cfg["scorer"]]
     c = {"id": cid, "method": cfg["method"], "scorer": cfg["scorer"], "cvkind": cfg["cv"], "njobs": cfg["njobs"], "kind": kind,
          "X": Xi.tolist(), "Y": Yi.tolist(), "f1": [int(i) + 1 for i in f1], "f2": [int(i) + 1 for i in f2], "raised": False,
